@@ -520,6 +520,25 @@ type EmbDeepHolder struct {
 	L []EmbDeep
 }
 
+// EmbVal embeds BY VALUE a struct that embeds a pointer to a custom-named struct
+type EmbVal struct {
+	EmbMid
+	K int32
+}
+
+// DiaW: a DIAMOND of embedded pointers: the custom-named struct is reached over two paths of different length
+type DiaD struct{ *NamedS }
+type DiaB struct{ *DiaD }
+type DiaA struct {
+	*NamedS
+	Q int32
+}
+type DiaW struct {
+	*DiaB
+	*DiaA
+	N int32
+}
+
 // MapThenInts: a typed (named) map in front of integer lists of different widths, one type repeated
 type MapThenInts struct {
 	M NamedMap
@@ -724,7 +743,7 @@ var Types = []Entry{
 	e(TimesThenRefs{}, "slice", "recursive"), e(Dog{}, "embedded", "custom"), e(DogHolder{}, "embedded", "custom"), e(GBoxHolder{}, "generic", "slice"), e(GM{}, "recursive", "custom-map"), e(AnyPropsHolder{}, "map", "custom", "custom-map", "iface"), e(MpOfMaps{}, "map"), e(SlOfMaps{}, "slice", "slice-of-map"),
 	e(PNamed{}, "ptr-receiver-name"), e(EmbPNamed{}, "embedded", "ptr-receiver-name"), e(EmbPNamedHolder{}, "embedded", "ptr-receiver-name", "slice"),
 	e(MapThenFloats{}, "custom", "custom-map", "slice"),
-	e(Trip{}, "nested", "slice", "time-internals-names"), e(EmbPtrNamed{}, "embedded", "custom"), e(EmbDeep{}, "embedded", "custom"), e(EmbDeepHolder{}, "embedded", "custom", "slice"), e(EmbPtrHolder{}, "embedded", "custom"),
+	e(Trip{}, "nested", "slice", "time-internals-names"), e(EmbPtrNamed{}, "embedded", "custom"), e(EmbDeep{}, "embedded", "custom"), e(DiaW{}, "embedded", "custom"), e(EmbVal{}, "embedded", "custom"), e(EmbDeepHolder{}, "embedded", "custom", "slice"), e(EmbPtrHolder{}, "embedded", "custom"),
 	e(TwoNarrow{}, "slice"), e(MapThenInts{}, "custom", "custom-map", "slice"), e(CaseInts{}, "scalars", "case-variant-fields"), e(EmbNamed{}, "embedded", "custom"), e(EmbNamedHolder{}, "embedded", "custom", "slice"),
 	e(HoldR{}, "slice", "map", "self-referential-container"), e(NamedScalars{}, "scalars", "named-scalars", "slice", "map"),
 	e(DigestHolder{}, "slice", "named-bytes"), e(StampedHolder{}, "embedded", "embedded-time"), e(PtrMap{}, "map", "ptr-map"),
